@@ -71,6 +71,8 @@ deriving DecidableEq, Repr
 /-- `agd.Ratelimiter` as observable through `Config()`. -/
 inductive Ratelimiter
   | global
+  /-- `*agd.DefaultRatelimiter`: it keeps subnets and RPS only, `NewDefaultRatelimiter` ignores
+  `RatelimitConfig.Enabled` and `Config()` always reports `Enabled: true` -/
   | default (subnets : List (Nat × Nat)) (rps : Nat)
 deriving DecidableEq, Repr
 
@@ -324,6 +326,44 @@ def profileFromPb (x : PbProfile) : Profile :=
 def fromPb (x : PbCache) : Cache :=
   { syncSec := x.syncSec, syncNsec := x.syncNsec, profiles := x.profiles.map profileFromPb,
     devices := x.devices.map deviceFromPb, version := x.version }
+
+/-! ### `backendpb`: where the internal values come from
+
+The converters of `internal/backendpb` for the three setting groups whose internal form is not
+free: authentication (`(*AuthenticationSettings).toInternal`, `dohPasswordToInternal`), rate limit
+(`(*RateLimitSettings).toInternal`) and access (`(*AccessSettings).toInternal`). -/
+
+/-- Wire `RateLimitSettings`. -/
+structure WireRate where
+  enabled : Bool
+  rps : Nat
+  cidr : List (Nat × Nat)
+deriving DecidableEq, Repr
+
+/-- Wire `AccessSettings`. -/
+structure WireAccess where
+  enabled : Bool
+  cfg : AccessCfg
+deriving DecidableEq, Repr
+
+/-- `backendpb.(*AuthenticationSettings).toInternal`; the wire message has the same shape as the
+cache's. -/
+def backendAuth : Option PbAuth → Auth
+  | none => { enabled := false, dohOnly := false, pw := .allow }
+  | some x => { enabled := true, dohOnly := x.dohOnly,
+                pw := match x.pw with
+                  | .unset => .allow
+                  | .bcrypt h => .bcrypt h }
+
+/-- `backendpb.(*RateLimitSettings).toInternal`. -/
+def backendRate : Option WireRate → Ratelimiter
+  | none => .global
+  | some x => if x.enabled then .default x.cidr x.rps else .global
+
+/-- `backendpb.(*AccessSettings).toInternal`; `none` is `access.EmptyProfile`. -/
+def backendAccess : Option WireAccess → Option AccessCfg
+  | none => none
+  | some x => if x.enabled then some x.cfg else none
 
 /-! ### Load decisions -/
 
